@@ -1678,12 +1678,33 @@ impl Interp {
         let must_refuse = self.any_reader() || self.any_valid_esave();
         let may_refuse = must_refuse || self.any_esave();
         let db = self.db.as_mut().ok_or("harness: no db")?;
+        // Ok(false) means "something was repaired". No property demands Ok(true) on an undamaged
+        // database, and redb compares a hash of the allocators' block decomposition, which can
+        // differ from a rebuild although every page has the right owner (e.g. after compact() and
+        // an aborted transaction that had grown the file). So Ok(false) counts against the
+        // database only if the independent page accounting found a discrepancy beforehand.
+        let accounting_clean_before = self.leaked_by_panic || crate::account::check(db).is_ok();
+        let allocated_before: Option<BTreeSet<(u32, u32)>> = crate::account::allocated_set(db).ok().map(|v| v.into_iter().collect());
         match db.check_integrity() {
             Err(DatabaseError::TransactionInProgress) if may_refuse => {
                 self.expected_errors += 1;
                 Ok("refused(busy)".into())
             }
-            Ok(true) => {
+            Ok(clean) if clean || accounting_clean_before => {
+                if !clean {
+                    self.expected_errors += 1;
+                    // ... and only if the repair changed no page's allocation status
+                    let after: Option<BTreeSet<(u32, u32)>> =
+                        crate::account::allocated_set(self.db.as_ref().unwrap()).ok().map(|v| v.into_iter().collect());
+                    if !self.leaked_by_panic && allocated_before != after {
+                        let (b, a) = (allocated_before.unwrap_or_default(), after.unwrap_or_default());
+                        return Err(format!(
+                            "check_integrity() reported Ok(false) and changed the allocation state: {} page(s) were allocated without an owner, {} owned page(s) were marked free",
+                            b.difference(&a).count(),
+                            a.difference(&b).count()
+                        ));
+                    }
+                }
                 if must_refuse {
                     return Err("check_integrity() ran although a read transaction or a valid ephemeral savepoint is alive".into());
                 }
@@ -1699,9 +1720,9 @@ impl Interp {
                     ));
                 }
                 self.after_txn_boundary("check_integrity")?;
-                Ok("clean".into())
+                Ok(if clean { "clean" } else { "repaired(allocator shape only)" }.into())
             }
-            Ok(false) => Err("check_integrity() reported Ok(false) (repair needed) on a healthy database".into()),
+            Ok(_) => Err("check_integrity() reported Ok(false) and the page accounting before the call shows a discrepancy (leaked or doubly owned pages)".into()),
             Err(e) => Err(format!("check_integrity() failed on a healthy database: {e}")),
         }
     }
